@@ -1,6 +1,6 @@
 /-
 CV.Store.Session — sessions, session-check links, prepared queries (as (id, session) rows) and the
-health-check upsert, which is mutually recursive with session invalidation.
+health-check upsert, which is recursive together with session invalidation.
 
 Mirrors agent/consul/state/session.go + session_ce.go (`sessionCreateTxn`, `deleteSessionTxn`,
 `updateSessionCheck`, `validateSessionChecksTxn`, `insertSessionTxn`, `sessionDeleteWithSession`),
@@ -24,7 +24,7 @@ open CV
 
 /-- `updateAllServiceIndexesOfNode` -/
 def bumpServiceIdx (s : State) (idx : Nat) (svcName : String) : State :=
-  ((s.maxIdx ("peer.internal:service." ++ svcName) idx).maxIdx2 "service_kind.typical" idx)
+  ((s.maxIdx ("peer.~:service." ++ svcName) idx).maxIdx2 "service_kind.typical" idx)
 
 def updateAllServiceIndexesOfNode (s : State) (idx : Nat) (node : String) : State :=
   (s.svcs.filter (fun v => lc v.node == lc node)).foldl (fun st v => bumpServiceIdx st idx v.name) s
@@ -83,6 +83,40 @@ def foldE {β : Type} (f : State → β → Except Err State) : List β → Stat
     | .ok s' => foldE f bs s'
     | .error e => .error e
 
+/-- first half of `ensureCheckTxn` (no recursion): indexes of the existing row, default status, node and
+    service validation, the `modified` decision and the service index bumps.
+    Returns the state, the completed check and `modified`. -/
+def checkPrep (s : State) (idx : Nat) (preserve : Bool) (hc : Chk) : Except Err (State × Chk × Bool) :=
+  let existing := chkFind s hc.node hc.id
+  let hc := match existing with
+    | some x => { hc with create := x.create, modify := x.modify }
+    | none => if preserve then hc else { hc with create := idx }
+  let hc := if hc.status == "" then { hc with status := critical } else hc
+  match nodeFind s hc.node with
+  | none => .error .missingNode
+  | some _ =>
+    if hc.svcId ≠ "" then
+      match svcFind s hc.node hc.svcId with
+      | none => .error .missingService
+      | some v =>
+        let hc := { hc with svcName := v.name }
+        match existing with
+        | some x => if chkSame x hc then .ok (s, hc, false) else .ok (bumpServiceIdx s idx v.name, hc, true)
+        | none => .ok (bumpServiceIdx s idx v.name, hc, true)
+    else
+      match existing with
+      | some x => if chkSame x hc then .ok (s, hc, false) else .ok (updateAllServiceIndexesOfNode s idx hc.node, hc, true)
+      | none => .ok (updateAllServiceIndexesOfNode s idx hc.node, hc, true)
+
+/-- last part of `ensureCheckTxn`: write the row unless nothing was modified -/
+def checkFinish (s : State) (idx : Nat) (preserve : Bool) (hc : Chk) (modified : Bool) : State :=
+  if !modified then s
+  else chkInsert s (if preserve then hc else { hc with modify := idx }) idx
+
+/-- the sessions `ensureCheckTxn` invalidates: those bound to the check, when its status is critical -/
+def sessionsToInvalidate (s : State) (hc : Chk) : List String :=
+  if hc.status == critical then checkSessions s hc.node hc.id else []
+
 mutual
 /-- `deleteSessionTxn` -/
 def deleteSessionF : Nat → State → Nat → String → Except Err State
@@ -105,46 +139,17 @@ def deleteSessionF : Nat → State → Nat → String → Except Err State
 /-- `ensureCheckTxn` -/
 def ensureCheckF : Nat → State → Nat → Bool → Chk → Except Err State
   | fuel, s, idx, preserve, hc =>
-    let existing := chkFind s hc.node hc.id
-    let hc := match existing with
-      | some x => { hc with create := x.create, modify := x.modify }
-      | none => if preserve then hc else { hc with create := idx }
-    let hc := if hc.status == "" then { hc with status := critical } else hc
-    match nodeFind s hc.node with
-    | none => .error .missingNode
-    | some _ =>
-      -- service part: copy the service name, decide `modified`, bump the service indexes
-      let r : Except Err (State × Chk × Bool) :=
-        if hc.svcId ≠ "" then
-          match svcFind s hc.node hc.svcId with
-          | none => .error .missingService
-          | some v =>
-            let hc := { hc with svcName := v.name }
-            match existing with
-            | some x => if chkSame x hc then .ok (s, hc, false) else .ok (bumpServiceIdx s idx v.name, hc, true)
-            | none => .ok (bumpServiceIdx s idx v.name, hc, true)
-        else
-          match existing with
-          | some x => if chkSame x hc then .ok (s, hc, false) else .ok (updateAllServiceIndexesOfNode s idx hc.node, hc, true)
-          | none => .ok (updateAllServiceIndexesOfNode s idx hc.node, hc, true)
-      match r with
-      | .error e => .error e
-      | .ok (s1, hc, modified) =>
-        -- critical: invalidate the sessions bound to this check
-        let r2 : Except Err State :=
-          if hc.status == critical then
-            match checkSessions s1 hc.node hc.id, fuel with
-            | [], _ => .ok s1
-            | _ :: _, 0 => .error .fuel
-            | ids, n + 1 => foldE (fun st sid => deleteSessionF n st idx sid) ids s1
-          else .ok s1
-        match r2 with
+    match checkPrep s idx preserve hc with
+    | .error e => .error e
+    | .ok (s1, hc1, modified) =>
+      -- critical: invalidate the sessions bound to this check
+      match sessionsToInvalidate s1 hc1, fuel with
+      | [], _ => .ok (checkFinish s1 idx preserve hc1 modified)
+      | _ :: _, 0 => .error .fuel
+      | ids, n + 1 =>
+        match foldE (fun st sid => deleteSessionF n st idx sid) ids s1 with
         | .error e => .error e
-        | .ok s2 =>
-          if !modified then .ok s2
-          else
-            let hc := if preserve then hc else { hc with modify := idx }
-            .ok (chkInsert s2 hc idx)
+        | .ok s2 => .ok (checkFinish s2 idx preserve hc1 modified)
 end
 
 /-- enough fuel for any cascade starting in `s` (each level that consumes fuel removes a session;
